@@ -397,6 +397,30 @@ func (ex *Exec) unitCount(pat string) int {
 	return n
 }
 
+// aliasLocal binds, in the unit's own frame, the names the contract recorded for
+// the SSA value v (by structural descriptor) in addition to its source name.
+func (ex *Exec) aliasLocal(f *Frame, fs *FState, v ssa.Value, b Binding, srcName string) {
+	if f.depth != 0 || ex.con == nil || len(ex.con.LocalDefs) == 0 {
+		return
+	}
+	d, ok := ex.prog.valueDescs(f.fn)[v]
+	if !ok {
+		return
+	}
+	if b.Addr {
+		d = "addr:" + d // the name stands for the variable stored at v, not for the pointer v
+	}
+	for _, n := range ex.con.LocalDefs[d] {
+		if n == srcName {
+			continue
+		}
+		if old, ok := fs.names[n]; ok && old.Addr && !b.Addr {
+			continue
+		}
+		fs.names[n] = b
+	}
+}
+
 // buildUnitOrds numbers the static call sites of the unit per callee short name
 // across the tree of helpers that will be inlined (block order, depth first).
 // Anchoring callassert/callsites on these numbers makes "extract these lines
@@ -742,6 +766,7 @@ func (ex *Exec) enterBlock(f *Frame, st *State, b, prev *ssa.BasicBlock) bool {
 			if n := phiName[phi]; n != "" {
 				fs.names[n] = Binding{V: vals[i], T: phi.Type()}
 			}
+			ex.aliasLocal(f, fs, phi, Binding{V: vals[i], T: phi.Type()}, phiName[phi])
 		}
 		return true
 	}
@@ -758,6 +783,7 @@ func (ex *Exec) enterBlock(f *Frame, st *State, b, prev *ssa.BasicBlock) bool {
 			if n := phiName[phi]; n != "" {
 				fs.names[n] = Binding{V: vs[i], T: phi.Type()}
 			}
+			ex.aliasLocal(f, fs, phi, Binding{V: vs[i], T: phi.Type()}, phiName[phi])
 		}
 	}
 	checkInv := func(kind string) {
@@ -980,10 +1006,12 @@ func (ex *Exec) step(f *Frame, st *State, in ssa.Instruction) bool {
 			if x.IsAddr {
 				if pt, ok := under(x.X.Type()).(*types.Pointer); ok {
 					fs.names[id.Name] = Binding{V: v, T: pt.Elem(), Addr: true}
+					ex.aliasLocal(f, fs, x.X, fs.names[id.Name], id.Name)
 				}
 			} else if old, ok := fs.names[id.Name]; !ok || !old.Addr {
 				// a variable living in memory keeps its address binding
 				fs.names[id.Name] = Binding{V: v, T: x.X.Type()}
+				ex.aliasLocal(f, fs, x.X, fs.names[id.Name], id.Name)
 			}
 		}
 	case *ssa.Alloc:
@@ -995,6 +1023,7 @@ func (ex *Exec) step(f *Frame, st *State, in ssa.Instruction) bool {
 		if x.Comment != "" && !strings.Contains(x.Comment, " ") && !strings.Contains(x.Comment, ".") {
 			st.fstate(f).names[x.Comment] = Binding{V: f.regs[x], T: et, Addr: true}
 		}
+		ex.aliasLocal(f, st.fstate(f), x, Binding{V: f.regs[x], T: et, Addr: true}, x.Comment)
 	case *ssa.BinOp:
 		f.regs[x] = ex.binop(f, st, x)
 	case *ssa.UnOp:
